@@ -18,7 +18,7 @@ func deadlineFor(tier string) time.Duration {
 	if tier == "thorough" {
 		return 1800 * time.Second // an internal deadline only ends the run early with exhaustive:false (exit 0); every thorough phase completes well inside it on 16 idle cores
 	}
-	return 55 * time.Second
+	return 90 * time.Second
 }
 
 // follow-up ops of the configuration-boundary sweep (C18)
